@@ -11,6 +11,9 @@ Driver for component `deflate` (property C19).  Script on stdin, one op per line
     offer <level> <hex> [<hex>]   -> offer acc= cmw= cnc= smw= snc= resp=<hex|->
                                      header value, optionally the bytes that follow it in memory
     outloop <total> <len>         -> outloop have=<n> chunks=<off:len:size,…>     (model only)
+    comp <len> <hexfull>          -> comp ret=<n> out=<hex> tail=<0|1>  |  comp WILD
+                                     websocket_compress on a payload of <len> bytes for which zlib emits <hexfull>
+                                     (the harness measures <hexfull> on a copy of the real deflate stream)
 
 Ops of the harness that have no model counterpart (rt, dec, mut, comp, offerx) are answered with `-`.
 `drv_deflate consts` prints the regenerated constants the model uses.
@@ -46,6 +49,12 @@ def outloopLine (total len : Nat) : String :=
   let chunks := ",".intercalate (r.1.map fun c => s!"{c.off}:{c.len}:{c.size}")
   s!"outloop have={outHave total s0} chunks={chunks}"
 
+def compLine (len : Nat) (full : Bytes) : String :=
+  match compress (fun _ => full) (List.replicate len 0) with
+  | .error => "comp ret=-1 out=- tail=0"
+  | .wild => "comp WILD"
+  | .ok out t => s!"comp ret={out.length} out={Hex.ofBytes out} tail={b2n t}"
+
 def stepLine (_ : Unit) (line : String) : Unit × List String :=
   let out := match words line with
     | [] => ""
@@ -62,6 +71,9 @@ def stepLine (_ : Unit) (line : String) : Unit × List String :=
     | ["offer", lv, v, a] => match lv.toNat?, Hex.toBytes? v, Hex.toBytes? a with
       | some n, some bs, some af => offerLine n bs af
       | _, _, _ => "ERROR bad args"
+    | ["comp", l, f] => match l.toNat?, Hex.toBytes? f with
+      | some n, some bs => compLine n bs
+      | _, _ => "ERROR bad args"
     | ["outloop", t, l] => match t.toNat?, l.toNat? with
       | some a, some b => outloopLine a b
       | _, _ => "ERROR bad args"
